@@ -10,6 +10,7 @@ package bcl
 //@ ghost var ev_closed_inputs bool   // the lexer has seen its input channel closed
 //@ ghost var ev_send_tokens int      // tokens sent by the lexer
 //@ ghost var ev_val_inputs string    // the chunk most recently received by the lexer
+//@ ghost var ev_src_inputs string    // prophecy: the whole input, i.e. the concatenation of all chunks (never assigned)
 //
 // slot of the line-table updater handed to the lexer
 //@ slot lexer.lpUpd (s string, prefix int)
@@ -27,6 +28,7 @@ package bcl
 // [posShift, posShift+len), and posShift+len is the number of bytes received;
 // the cursor stays inside the window, also across backup/unbackup.
 //@ invariant [C06,C07,C08,C11,C20] lexwin (l *lexer): 0 <= l.start && l.start <= l.pos && l.pos <= len(l.input) && l.posShift >= 0 && l.posShift + len(l.input) == g.ev_bytes_inputs && l.lpUpd != nil && 0 <= l.width && l.width <= 4 && (g.bk == 0 ==> l.start <= l.pos - l.width) && (g.bk == 1 ==> l.pos + l.width <= len(l.input))
+//@ invariant [C07,C20] window_is_a_piece_of_the_source (l *lexer): l.posShift + len(l.input) <= len(g.ev_src_inputs) && (g.ev_closed_inputs ==> l.posShift + len(l.input) == len(g.ev_src_inputs)) && (forall i int :: 0 <= i && i < len(l.input) ==> l.input[i] == g.ev_src_inputs[l.posShift + i])
 //
 // next(): refill and decode one character.
 //@ group C06,C07,C08,C11
@@ -39,9 +41,13 @@ package bcl
 //@   ensures [C07] decoded_from_complete_character: result != eof ==> fullrune(l.input[l.pos - l.width:]) || g.ev_closed_inputs
 //@   ensures [C07] received_only_grows: g.ev_bytes_inputs >= old(g.ev_bytes_inputs) && (old(g.ev_closed_inputs) ==> g.ev_closed_inputs)
 //@   ensures may_give_back: g.bk == 0
+//@   ensures [C07,C20] next_character_of_the_source_whatever_the_chunking: result != eof ==> result == runeAt(g.ev_src_inputs, old(l.posShift + l.pos)) && l.width == widthAt(g.ev_src_inputs, old(l.posShift + l.pos))
+//@   ensures [C07,C20] end_only_at_the_end_of_the_source: result == eof ==> old(l.posShift + l.pos) == len(g.ev_src_inputs)
+//@   use utf8_prefix_1, utf8_prefix_2, utf8_prefix_3, utf8_size, utf8_ascii
 //@   assert [C07,C08] line_table_gets_the_absolute_offset_of_the_chunk: at slot.lexer.lpUpd: $prefix == g.ev_bytes_inputs - len($s) && $prefix >= 0
 //@   assert [C07,C08] line_table_gets_exactly_the_received_chunk: at slot.lexer.lpUpd: $s == g.ev_val_inputs
 //@   loop 1 invariant window: 0 <= l.start && l.start <= l.pos && l.pos <= len(l.input) && l.posShift + len(l.input) == g.ev_bytes_inputs && l.lpUpd == old(l.lpUpd) && l.lpUpd != nil && l.posShift >= 0
+//@   loop 1 invariant window_is_a_piece_of_the_source: l.posShift + len(l.input) <= len(g.ev_src_inputs) && (g.ev_closed_inputs ==> l.posShift + len(l.input) == len(g.ev_src_inputs)) && (forall i int :: 0 <= i && i < len(l.input) ==> l.input[i] == g.ev_src_inputs[l.posShift + i])
 //@   loop 1 invariant abstract_positions_kept: l.posShift + l.start == old(l.posShift + l.start) && l.posShift + l.pos == old(l.posShift + l.pos) && g.ev_bytes_inputs >= old(g.ev_bytes_inputs) && (old(g.ev_closed_inputs) ==> g.ev_closed_inputs)
 //@   modifies l.input, l.start, l.pos, l.posShift, l.width, lineCalc.lfs, g.ev_bytes_inputs, g.ev_closed_inputs, g.ev_val_inputs, g.bk
 //@   ghost bk = 0
